@@ -109,7 +109,7 @@ Qed.
 
 Lemma minv_gstep c deep g l g' a : minv g -> gstep c deep g l = Some (g', a) -> minv g'.
 Proof.
-  intros Hg Hs. destruct l as [j|w|]; cbn [gstep] in Hs.
+  intros Hg Hs. destruct l as [j|w| |cid]; cbn [gstep] in Hs; [| | |discriminate].
   - destruct (loc_of c (key_of (j_op j)) <? 0); [inversion Hs; subst; exact Hg|].
     pose proof (winv_wcall deep (g (loc_of c (key_of (j_op j)))) j (Hg _)) as Hw.
     destruct (wcall deep (g (loc_of c (key_of (j_op j)))) j) as [s' a']. inversion Hs; subst. apply minv_updm; assumption.
@@ -286,7 +286,7 @@ Qed.
 Lemma oinv_gstep c deep g tr l g' a : minv g -> oinv c g tr -> gstep c deep g l = Some (g', a) -> oinv c g' (tr ++ [(l, a)]).
 Proof.
   intros Hm Ho Hs w. destruct (Ho w) as (done & Hq & Hf). unfold wq, ws in *. rewrite !flat_map_snoc.
-  destruct l as [j|w0|]; cbn [gstep] in Hs.
+  destruct l as [j|w0| |cid]; cbn [gstep] in Hs; [| | |discriminate].
   - (* call *) cbn [ws1]. rewrite app_nil_r. set (wj := loc_of c (key_of (j_op j))) in *.
     destruct (wj <? 0) eqn:En.
     { inversion Hs; subst. cbn [wq1]. rewrite app_nil_r. exists done. split; assumption. }
@@ -351,7 +351,7 @@ Proof. intros w. split; [intros r H; discriminate | constructor]. Qed.
 
 Lemma rinv_gstep c deep g l g' a : minv g -> rinv c g -> gstep c deep g l = Some (g', a) -> rinv c g' /\ step_routed c (l, a).
 Proof.
-  intros Hm Hr Hs. destruct l as [j|w0|]; cbn [gstep] in Hs.
+  intros Hm Hr Hs. destruct l as [j|w0| |cid]; cbn [gstep] in Hs; [| | |discriminate].
   - split; [|exact I]. set (wj := loc_of c (key_of (j_op j))) in *. destruct (wj <? 0); [inversion Hs; subst; exact Hr|].
     destruct (wcall deep (g wj) j) as [s' a'] eqn:Ew. inversion Hs; subst g' a'; clear Hs. intros w.
     destruct (Z.eq_dec w wj) as [->|Hne]; [|rewrite updm_other by exact Hne; apply Hr].
@@ -397,7 +397,7 @@ Definition store_calls_of (k : Z) (tr : list (glabel * answer)) : list Z :=
 Lemma queued_of_wq c k tr : queued_of k tr = map fst (filter (fun p => snd p =? k) (wq c (loc_of c k) tr)).
 Proof.
   unfold queued_of, wq. induction tr as [|[l a] tr IH]; [reflexivity|]. cbn [flat_map]. rewrite filter_app, map_app, <- IH. f_equal.
-  destruct l as [j| |]; try reflexivity. destruct a; try reflexivity. cbn [wq1].
+  destruct l as [j| | |]; try reflexivity. destruct a; try reflexivity. cbn [wq1].
   destruct (key_of (j_op j) =? k) eqn:E.
   - apply Z.eqb_eq in E. rewrite E, Z.eqb_refl. cbn [filter jp snd]. rewrite E, Z.eqb_refl. reflexivity.
   - destruct (loc_of c (key_of (j_op j)) =? loc_of c k); [|reflexivity]. cbn [filter jp snd]. rewrite E. reflexivity.
@@ -408,7 +408,7 @@ Lemma store_calls_of_ws c k tr : Forall (step_routed c) tr ->
 Proof.
   unfold store_calls_of, ws. induction tr as [|[l a] tr IH]; intros HF; [reflexivity|]. inversion HF; subst.
   cbn [flat_map]. rewrite filter_app, map_app, filter_app, map_app, <- (IH H2). f_equal.
-  destruct l as [|w|]; try reflexivity. destruct a; try reflexivity. cbn [ws1]. cbn [step_routed] in H1.
+  destruct l as [|w| |]; try reflexivity. destruct a; try reflexivity. cbn [ws1]. cbn [step_routed] in H1.
   destruct (w =? loc_of c k) eqn:Ew.
   - cbn [filter snd]. destruct (is_store_ev e); [|reflexivity]. cbn [map sk fst snd filter andb]. destruct (ev_key e =? k); reflexivity.
   - cbn [filter map]. destruct (ev_key e =? k) eqn:Ek; [|rewrite andb_false_r; reflexivity].
